@@ -386,7 +386,7 @@ package cert
 // "PRIVATE KEY" is handed to ParsePKCS8PrivateKey; other blocks are skipped; anything left over after the last block,
 // or a block that does not parse, is an error (C17: any combination of hash line, certificate, key and request).
 //@ func ReadPem returns (res, err)
-//@   props C17 C14
+//@   props C17 C14 C20
 //@   uses pem.smt2
 //@   noslicefacts
 //@   let D0 = old(bytes(pemBytes))
@@ -398,12 +398,14 @@ package cert
 //@   ensures @C17,C14 err == nil && res.Certificate != nil ==> deep(deref(res.Certificate)) == pemLastD(D0, 1, #noDeep)
 //@   ensures @C17,C14 err == nil && res.Request != nil ==> deep(deref(res.Request)) == pemLastD(D0, 2, #noDeep)
 //@   ensures @C17,C14 err == nil ==> ((res.PrivateKey != nil) <==> pemAny(D0, 3, false))
+//@   ensures @C20,C17,C14 res.PrivateKey != nil ==> unboxRef(res.PrivateKey) != 0
 //@   loop 1
 //@     invariant @C17,C14 pemTail(CUR) == pemTail(D0)
 //@     invariant @C17,C14 pemAny(CUR, 1, pemFileContent.Certificate != nil) == pemAny(D0, 1, false) && pemAny(CUR, 2, pemFileContent.Request != nil) == pemAny(D0, 2, false)
 //@     invariant @C17,C14 pemLastD(CUR, 1, ACCC) == pemLastD(D0, 1, #noDeep)
 //@     invariant @C17,C14 pemLastD(CUR, 2, ACCR) == pemLastD(D0, 2, #noDeep)
 //@     invariant @C17,C14 pemAny(CUR, 3, pemFileContent.PrivateKey != nil) == pemAny(D0, 3, false)
+//@     invariant @C20,C17,C14 pemFileContent.PrivateKey != nil ==> unboxRef(pemFileContent.PrivateKey) != 0
 
 // ---- EC private keys and PKCS#8 (C17, C14)
 //@ func namedCurveFromOID returns (res, err)
@@ -450,14 +452,15 @@ package cert
 // ParsePKCS8PrivateKey: RSA keys go to the PKCS#1 parser, EC keys to parseECPrivateKey with the curve OID of the
 // algorithm parameters (if it parses), anything else is an error.
 //@ func ParsePKCS8PrivateKey returns (key, err)
-//@   props C17 C14
+//@   props C17 C14 C20
 //@   uses ec.smt2 fs.smt2
 //@   given oidv(oidRsaEncryption) == oid("1.2.840.113549.1.1.1") && oidv(oidEcPublicKey) == oid("1.2.840.10045.2.1")
 //@   ghostret P8 gopki/generator/cert.pkcs8 = aftercall("encoding/asn1.Unmarshal", 1, deref(addr(privKey)))
 //@   ghostret P8KEY Bytes = aftercall("encoding/asn1.Unmarshal", 1, bytes(deref(addr(privKey)).PrivateKey))
 //@   ghostret ECKEY Int = callres("gopki/generator/cert.parseECPrivateKey", 1, 0)
 //@   ghostret ECERR Any = callres("gopki/generator/cert.parseECPrivateKey", 1, 1)
-//@   ensures err != nil ==> key == nil
+//@   ensures @C20,C17,C14 err != nil ==> key == nil
+//@   ensures @C20,C17,C14 err == nil ==> key != nil && unboxRef(key) != 0
 //@   ensures @C17,C14 err == nil ==> key != nil && bound(P8) && bound(P8KEY)
 //@   ensures @C17 err == nil && bound(P8) ==> (oidv(P8.Algo.Algorithm) == oid("1.2.840.113549.1.1.1") || oidv(P8.Algo.Algorithm) == oid("1.2.840.10045.2.1"))
 //@   ensures @C17 err == nil && bound(P8) && bound(P8KEY) && oidv(P8.Algo.Algorithm) == oid("1.2.840.113549.1.1.1") ==> typeis(key, "*crypto/rsa.PrivateKey") && pkcs1priv(unboxRef(key)) == P8KEY
